@@ -171,6 +171,40 @@ pub fn exec(op: &str, a: &[u64]) -> Result<Outcome, String> {
                     } else if ts.len() == 1 {
                         // a single sequence: the sequence average is that sequence's value
                         o.check((v.0 - fbeta(v.1, v.2, beta)).abs() < 1e-12, "sequence-averaged F-beta of one sequence != the F-beta of its precision and recall");
+                    } else if op == "spellf1" && ts.len() >= 2 {
+                        // sequence averaging is the mean of the per-sequence values.  The value of a sequence in which
+                        // something was to do or was done (input, prediction and target are not all the same text) is the
+                        // F-beta of its own counts, i.e. what micro averaging reports for that sequence alone; what a
+                        // sequence counts as in which no input word had to be corrected and none was changed is a
+                        // convention the property leaves open (the code: 1), so both readings are accepted for those,
+                        // uniformly.
+                        let mut sums = [(0.0f64, 0.0f64, 0.0f64); 2];
+                        let mut ok_all = true;
+                        for k in 0..ts.len() {
+                            // nothing to do and nothing done: every target word is already in the input (in order) and every
+                            // input word is kept by the prediction
+                            let (pi, pp, pt) = (prep(i[k]), prep(p[k]), prep(t[k]));
+                            let mw = |a: &str, b: &str| std::panic::catch_unwind(|| { let (m, na, nb) = text_utils::text::match_words(a, b, false); (m.len(), na, nb) }).unwrap_or((0, 1, 1));
+                            let (mp, ni, _) = mw(&pi, &pp);
+                            let (mt, _, nt) = mw(&pi, &pt);
+                            let trivial = mp == ni && mt == nt;
+                            match spelling_correction_f1(&i[k..k + 1], &p[k..k + 1], &t[k..k + 1], beta, false, g) {
+                                Ok((one, _)) => {
+                                    for (c, s) in sums.iter_mut().enumerate() {
+                                        let x = if trivial && c == 1 { (1.0, 1.0, 1.0) } else { one };
+                                        s.0 += x.0;
+                                        s.1 += x.1;
+                                        s.2 += x.2;
+                                    }
+                                }
+                                Err(_) => ok_all = false,
+                            }
+                        }
+                        if ok_all {
+                            let n = ts.len() as f64;
+                            let close = |s: (f64, f64, f64)| (v.0 - s.0 / n).abs() < 1e-9 && (v.1 - s.1 / n).abs() < 1e-9 && (v.2 - s.2 / n).abs() < 1e-9;
+                            o.check(close(sums[0]) || close(sums[1]), "sequence average != mean of the per-sequence values (each sequence evaluated alone)");
+                        }
                     }
                     Ok(o)
                 }
